@@ -62,7 +62,7 @@ def required(tier):
     cover += [f"compared:{f.lower()}_cpcca:{v}" for f in FAMS for v in VARS]
     cover += [f"compared:mca_xx_eof:{v}" for v in VARS]
     cover += [f"compared:complex_on_real:{c}" for c in COMPLEX_ON_REAL]
-    cover += ["compared:spca0_eof", "compared:pca_all_vs_none", "compared:multicca_crosscca", "multicca:unit_mix"]
+    cover += ["compared:spca0_eof", "compared:pca_all_vs_none", "compared:multicca_crosscca", "multicca:unit_mix", "complex_on_real:dask", "complex_on_real:dask_auto"]
     # 'compared:eeof1_eof' is deliberately not promised: on the pinned tree the fit raises (known defect)
     return {"mon": ["post:Decomposer.fit"], "cover": cover}
 
@@ -417,8 +417,19 @@ def _dispatch(xe, case, obs, b, pair, sub, label):
         if sub == "ComplexEOF":
             k, lam = single_k_and_gap(obs, case, b, case["center"])
             ekw = dict(n_modes=k, center=case["center"], standardize=bool(fx["standardize"]), use_coslat=bool(fx["coslat"]), solver="full")
-            mA = _fit(xe.single.EOF(**ekw), b["da"][0], dim="time", weights=b["W"][0])
-            mB = _fit(xe.single.ComplexEOF(**ekw), b["da"][0], dim="time", weights=b["W"][0])
+            X0 = b["da"][0]
+            if case["dseed"] % 2 == 0 and X0.sizes["time"] >= max(X0.size // X0.sizes["time"], 1):
+                # the same real data, dask-backed (tall: chunked along time only): "a Complex model fed real data
+                # equals the real model" holds for whatever array type the real model accepts
+                X0 = X0.chunk({"time": max(4, X0.sizes["time"] // 2)})
+                obs.cell("complex_on_real:dask")
+                obs.tag(dask_input=True)
+                if case["dseed"] % 4 == 0:
+                    # both members on the default solver with the same seed: the same computation twice
+                    ekw.update(solver="auto", random_state=5)
+                    obs.cell("complex_on_real:dask_auto")
+            mA = _fit(xe.single.EOF(**ekw), X0, dim="time", weights=b["W"][0])
+            mB = _fit(xe.single.ComplexEOF(**ekw), X0, dim="time", weights=b["W"][0])
             obs.nontrivial = True
             obs.cell("compared:" + label)
             compare(obs, read_single(mA, b), read_single(mB, b), False, sv_name="explained_variance")
